@@ -125,6 +125,11 @@ func tables() []tbl {
 		tt.atoms = append(tt.atoms, cmp("?v", op, B("?w")))
 	}
 	out = append(out, tt)
+	// bare bindings and a comparison without its right operand: the grammar derives them, only the expression
+	// builder can refuse them (they must be refused with an error, whatever surrounds them)
+	tb := tbl{name: "bare-binding", where: one("ki"), proj: sv}
+	tb.atoms = []*bqlm.Expr{{Kind: "cmp", Left: "?v"}, {Kind: "cmp", Left: "?s"}, {Kind: "cmp", Left: "?v", Op: "="}, cmp("?v", "=", I(0))}
+	out = append(out, tb)
 	// applied after grouping: aggregate outputs
 	ta := tbl{name: "aggregate", where: one("kn"), proj: []bqlm.Proj{pj("?v"), {Binding: "?s", Op: "count", Alias: "?c"}}, group: []string{"?v"}}
 	for _, op := range ops {
